@@ -125,7 +125,10 @@ class Executor:
                         res = {'task': n, 'digest': digest_of(ch.tasks[n].value)}
                     elif kind == 'force_task':
                         n = self.task_of(ch, op['task'])
-                        ch.tasks[n].force(delete_data=op.get('delete', False))
+                        if op.get('reset_only'):
+                            ch.tasks[n].reset_data()   # drops the in-memory result only: nothing forced, nothing deleted
+                        else:
+                            ch.tasks[n].force(delete_data=op.get('delete', False))
                         res = {'task': n}
                     elif kind == 'force_chain':
                         names = [self.task_of(ch, t) for t in op['tasks']]
@@ -144,6 +147,14 @@ class Executor:
                         res = {'tasks': names}
                     elif kind == 'inspect':
                         res = self.inspect(ch, op['what'])
+                    elif kind == 'loglevel':
+                        # the user turns a task's logger up or down (loggers are per task full name, process-wide;
+                        # constructing a task sets its logger to DEBUG again)
+                        import logging
+                        n = self.task_of(ch, op['task'])
+                        t = ch.tasks[n]
+                        t.logger.setLevel(getattr(logging, op['level']))
+                        res = {'task': n, 'logger': t.fullname}
         except (InjectedFault, InjectedInterrupt) as e:
             err = 'InjectedFault'
         except Exception as e:
@@ -299,6 +310,8 @@ class StoreModel:
         self._seen = {}
         self.writer = {}
         self.last_run = {}
+        self.levels = {}      # (process, task full name) -> logger threshold set by the user (C18)
+        self._cur_proc = 'main'
 
     def mtasks(self, vi, pm=True):
         key = (vi, pm)
@@ -408,7 +421,8 @@ class StoreModel:
             if o.persisting:
                 self.store[self.loc(o)] = want
                 self.writer[self.loc(o)] = id(mch)
-                self.last_run[self.loc(o)] = {'seq': seq, 'obj': o, 'chain': mch.owner(o), 'fullname': fullname}
+                self.last_run[self.loc(o)] = {'seq': seq, 'obj': o, 'chain': mch.owner(o), 'fullname': fullname,
+                                              'level': self.levels.get((self._cur_proc, fullname), 10)}
                 self.runs_per_location[self.loc(o)] = self.runs_per_location.get(self.loc(o), 0) + 1
             else:
                 self.runs_per_memobj[id(o)] = self.runs_per_memobj.get(id(o), 0) + 1
@@ -422,6 +436,7 @@ class StoreModel:
     # -- one step
     def step(self, proc, op, obs, info):
         kind = op['op']
+        self._cur_proc = proc
         sl = self.slots(proc)
         err = obs.get('error')
         log = obs.get('log', [])
@@ -451,6 +466,9 @@ class StoreModel:
             sl.append(new)
             # task sets and identity structure
             chains = [new[1]] if kind == 'chain' else new[1]
+            for c_ in chains:
+                for fn_ in c_.mt:
+                    self.levels.pop((proc, fn_), None)   # Task.__init__ sets its logger to DEBUG
             descs = [obs['result']] if kind == 'chain' else obs['result']['members']
             for mch, d in zip(chains, descs):
                 if set(d['tasks']) != set(mch.mt):
@@ -479,6 +497,11 @@ class StoreModel:
             if obs.get('result'):
                 self.armed[obs['result']] = op.get('n', 1)
             return {'kind': 'fault'}
+        if kind == 'loglevel':
+            if obs.get('result'):
+                import logging
+                self.levels[(proc, obs['result']['logger'])] = getattr(logging, op['level'])
+            return {'kind': 'loglevel'}
         mch = self.chain_of(proc, op)
         if mch is None:
             return {'kind': 'skipped'}
@@ -566,6 +589,9 @@ class StoreModel:
                 raise Violation('force-ran-tasks', dict(info, ran=[e[0] for e in log]))
             if err is not None:
                 raise Violation('force-raised', dict(info, error=err))
+            if op.get('reset_only'):
+                o.mem = None
+                return {'kind': 'reset', 'task': n}
             if op.get('delete') and o.persisting:
                 self.store.pop(self.loc(o), None)
             o.forced, o.mem = True, None
